@@ -78,7 +78,7 @@ def run(ctx, rep):
         stamps = [c for c in conds if 'arg->file->' in c and 'file->' in c]
         fields = sorted({x for c in stamps for x in ('size', 'mtime_sec', 'mtime_nsec') if ('->' + x + '!=') in c.replace(' ', '') or ('->' + x + ')') in c or c.replace(' ', '').endswith('->' + x + ')')})
         mh = list(f.calls('memhash'))
-        okmh = len(mh) == 2 and all(f.expr(m.ops[3]) == 'arg->buffer' and f.expr(m.ops[4]) == 'arg->read_size' for m in mh)
+        okmh = len(mh) >= 1 and all(f.xexpr(m.ops[3]).endswith('arg->buffer') and f.xexpr(m.ops[4]).endswith('arg->read_size') for m in mh)
         ok = e is not None and f.edge_dominates(e[0], e[1], succ[0]) and fields == ['mtime_nsec', 'mtime_sec', 'size'] and okmh and 'arg->block->hash' in ' '.join(f.expr(o) for o in mc[0].ops)
         det = 'stamp fields compared before the match: %s; hash of the bytes read: %s' % (fields, okmh)
     rep.check(ok, 'R-C19-2', 'search_file_compare', f.file, det, function='search_file_compare', construct='verify before match')
